@@ -75,6 +75,10 @@ CHECKS = {
    technique="exhaustive kill-point enumeration (a child process dies before every write-class libc call SQLite issues, by symbol interposition) plus exhaustive history enumeration with a reopen-differential at every step, plus enumeration of v0/newer-version databases",
    text="Every write-class syscall of each history (set-up of a fresh store, upgrade of a v0 store, 1-4 colliding allocations) is a kill point; after each kill the file must reopen, hold exactly the state after j or j+1 acknowledged operations, and continue like the uninterrupted run. Restart equivalence is decided by comparing, at every message of every history, the long-lived store with a store reopened on a copy of its file.",
    note="Process kill, not power loss (the page cache survives). _exit before the call stands in for SIGKILL. Scratch files live in /dev/shm (tmpfs) and are removed."),
+ "C20": dict(level="model_checking", engine="E-HIST + HTTP rig", design="5/C20",
+   technique="explicit-state BFS over handle_pkt to enumerate reachable lease stores, each read at boundary clocks through the real /metrics endpoint; plus exhaustive enumeration of host-name / client-identifier octets through real DISCOVERs and the real lease listing, parsed by a strict JSON parser",
+   text="Gauges are compared with the store for every reachable store of the search and every clock value at each row's expiry -1/+0/+1 (and the empty store after non-empty ones); the listing is requested from the real HTTP API over the unix control socket for stores holding one lease per enumerated host-name/identifier value and compared entry by entry with the rows.",
+   note="expiry == now may be counted either way. The DhcpService is built by the verif_new hook (ephemeral UDP port instead of 67)."),
 }
 
 NOT_YET = {
